@@ -124,17 +124,18 @@ def teardown(ctx):
 def _data(rng, n, eqn, model):
     """piecewise-constant / random data with ratios up to 1e3 and Mach (Froude) up to 3, colliding and receding streams"""
     kind = str(rng.choice(["two-state", "three-state", "random", "collide", "recede"]))
+    e = 1.5 if rng.random() < 0.8 else float(rng.choice([3.0, 4.0]))       # "arbitrarily strong jumps": ratios up to 1e3, sometimes 1e6-1e8
     k = 2.0 / (model.gamma - 1.0) if eqn == "euler" else 2.0
     def cs(a, p):
         return np.sqrt(model.gamma * p / a) if eqn == "euler" else np.sqrt(model.g * a)
     if kind == "random":
-        a = 10 ** rng.uniform(-1.5, 1.5, n); p = 10 ** rng.uniform(-1.5, 1.5, n)
+        a = 10 ** rng.uniform(-e, e, n); p = 10 ** rng.uniform(-e, e, n)
         m = rng.uniform(-3, 3, n) * (rng.random() < 0.5) + rng.uniform(-0.5, 0.5, n)
     else:
         nz = 2 if kind in ("two-state", "collide", "recede") else 3
         cuts = np.sort(rng.choice(np.arange(1, n), size=min(nz - 1, n - 1), replace=False)) if n > 1 else []
         zone = np.searchsorted(cuts, np.arange(n), side="right")
-        av = 10 ** rng.uniform(-1.5, 1.5, nz); pv = 10 ** rng.uniform(-1.5, 1.5, nz); mv = rng.uniform(-3, 3, nz)
+        av = 10 ** rng.uniform(-e, e, nz); pv = 10 ** rng.uniform(-e, e, nz); mv = rng.uniform(-3, 3, nz)
         if kind == "collide":
             mv = np.array([abs(mv[0]), -abs(mv[1])])
         if kind == "recede":
